@@ -36,6 +36,19 @@ type Gen struct {
 	NoChurn        bool        // no multi-call edge churn steps
 	NoTypedMeta    bool        // metadata values are JSON-native only
 	Combos         [][2]string // allowed metric/precision pairs (nil = all valid)
+	// Opt-in extensions (zero value = the behaviour every check was built on; no extra draws
+	// from R while they are off):
+	// NilVecPct: percentage of generated adds (single add, batch / import item, evolve) that
+	// carry NO vector ("vector-less entity": the engine stores a zero vector of the index's
+	// dimension). Mostly drawn for a non-empty index (on an empty one the call is a rejection).
+	NilVecPct int
+	// ReservedMeta: generated metadata sometimes carries the keys the memory machinery owns
+	// (_created_at, memory_layer, _pinned, _access_count, _last_accessed) with user values.
+	ReservedMeta bool
+	// DimOf: vector dimension per index name (nil / missing name = Dim for every index).
+	DimOf map[string]int
+	// CfgHook, when set, may adjust every index configuration Cfg has drawn.
+	CfgHook func(*IndexCfg)
 }
 
 var Vocab = []string{"alpha", "beta", "gamma", "delta", "red", "green", "running", "connected", "caffè", "città", "the", "not"}
@@ -58,8 +71,28 @@ var AllCombos = [][2]string{
 	{string(distance.Euclidean), string(distance.Float16)}, {string(distance.Cosine), string(distance.Int8)},
 }
 
-func (g *Gen) Vec() []float32 {
-	v := make([]float32, g.Dim)
+func (g *Gen) Vec() []float32 { return g.vecOf(g.Dim) }
+
+// VecFor draws a vector of the dimension of the given index (DimOf, else Dim).
+func (g *Gen) VecFor(index string) []float32 {
+	if d, ok := g.DimOf[index]; ok && d > 0 {
+		return g.vecOf(d)
+	}
+	return g.vecOf(g.Dim)
+}
+
+// AddVec is VecFor, or (NilVecPct) no vector at all.
+func (g *Gen) AddVec(m *Model, index string) []float32 {
+	if g.NilVecPct > 0 && g.R.Intn(100) < g.NilVecPct {
+		if mi := m.Idx[index]; (mi != nil && len(mi.Recs) > 0) || g.R.Chance(0.1) {
+			return nil
+		}
+	}
+	return g.VecFor(index)
+}
+
+func (g *Gen) vecOf(dim int) []float32 {
+	v := make([]float32, dim)
 	switch g.R.Intn(12) {
 	case 0: // zero vector
 	case 1: // large magnitudes (still finite in float16)
@@ -166,6 +199,22 @@ func (g *Gen) Meta() map[string]any {
 			m["obj"] = []any{float64(g.R.Intn(5)), vkit.Pick(g.R, g.Words), g.R.Chance(0.5), nil}
 		}
 	}
+	if g.ReservedMeta && g.R.Chance(0.3) {
+		for n := g.R.Range(1, 2); n > 0; n-- {
+			switch g.R.Intn(5) {
+			case 0: // "only inject if missing (allows importing historical data)"
+				m["_created_at"] = float64(12345 + g.R.Intn(3))
+			case 1: // a configured layer, the default one, the empty string, an unconfigured one
+				m["memory_layer"] = vkit.Pick(g.R, []string{"procedural", "procedural", "episodic", "", "semantic"})
+			case 2:
+				m["_pinned"] = g.R.Chance(0.5)
+			case 3:
+				m["_access_count"] = float64(g.R.Intn(5))
+			default:
+				m["_last_accessed"] = float64(5 + g.R.Intn(3))
+			}
+		}
+	}
 	return m
 }
 
@@ -205,6 +254,9 @@ func (g *Gen) Cfg(name string) IndexCfg {
 			mem.Consolidation = hnsw.ConsolidationConfig{SimilarityThreshold: 0.8, MaxEpisodicAge: hnsw.Duration(48 * time.Hour)}
 		}
 		cfg.Mem = &mem
+	}
+	if g.CfgHook != nil {
+		g.CfgHook(&cfg)
 	}
 	return cfg
 }
@@ -279,7 +331,7 @@ func (g *Gen) Batch(m *Model, index string, n int) []types.BatchObject {
 			continue
 		}
 		used[id] = true
-		items = append(items, types.BatchObject{Id: id, Vector: g.Vec(), Metadata: g.Meta()})
+		items = append(items, types.BatchObject{Id: id, Vector: g.AddVec(m, index), Metadata: g.Meta()})
 	}
 	return items
 }
@@ -339,7 +391,7 @@ func (g *Gen) Step(x *Exec) {
 				}
 			}
 		}
-		x.VAdd(ix, id, g.Vec(), g.Meta())
+		x.VAdd(ix, id, g.AddVec(m, ix), g.Meta())
 	case p < 40:
 		x.VAddBatch(ix, g.Batch(m, ix, r.Range(1, 6)))
 	case p < 42:
@@ -373,7 +425,7 @@ func (g *Gen) Step(x *Exec) {
 			return
 		}
 		if id, ok := g.pickLive(m, ix); ok {
-			x.VEvolve(ix, id, g.Vec(), g.Meta(), vkit.Pick(r, g.Words))
+			x.VEvolve(ix, id, g.AddVec(m, ix), g.Meta(), vkit.Pick(r, g.Words))
 		}
 	case p < 83:
 		src, tgt := vkit.Pick(r, g.IDs[:5]), vkit.Pick(r, g.IDs[:5])
